@@ -139,7 +139,7 @@ class PlatformService():
             else:
                 self._protocolVersion = -1
                 logger.info('Protocol version (crt): {}'.format(self.get_protocol_version()))
-                self._callback()
+                self._call_callback()
 
     def _platform_callback(self, pk):
         if pk.channel == VERSION_COMMAND:
@@ -148,4 +148,12 @@ class PlatformService():
             if pk.data[0] == VERSION_GET_PROTOCOL:
                 self._protocolVersion = pk.data[1]
                 logger.info('Protocol version (platform): {}'.format(self.get_protocol_version()))
-                self._callback()
+                self._call_callback()
+
+    def _call_callback(self):
+        # Guard against multiple responses due to re-sending: the connection
+        # sequence must continue only once
+        callback = self._callback
+        self._callback = None
+        if callback:
+            callback()
